@@ -24,6 +24,14 @@ def load_prop(pid):
     return importlib.import_module("props.%s" % pid.lower())
 
 
+def call_oracle(mod, pystog, case, res):
+    """the property's own oracle; a result that changed under reuse of the same object (props/reuse.py) fails every property
+    about returned values"""
+    if isinstance(res, dict) and res.get("reuse_error"):
+        return res["reuse_error"]
+    return mod.oracle(pystog, case, res)
+
+
 def run_case(mod, pystog, case):
     try:
         return mod.run_impl(pystog, case)
@@ -120,7 +128,7 @@ def main():
         res = run_case(mod, pystog, case)
         results.append(res)
         try:
-            msg = mod.oracle(pystog, case, res)
+            msg = call_oracle(mod, pystog, case, res)
         except Exception:
             msg = "oracle raised: " + traceback.format_exc()[-800:]
         if msg:
@@ -189,14 +197,14 @@ def main():
         i, msg = unknown_fail[0]
 
         def fails(c, r):
-            m = mod.oracle(pystog, c, r)
+            m = call_oracle(mod, pystog, c, r)
             return bool(m)
 
         small = shrink(mod, pystog, cases[i], fails)
         sres = run_case(mod, pystog, small)
         path = os.path.join(rdir, "violation_%s.json" % C.case_hash(small))
         C.write_json(path, {
-            "property": pid, "kind": "failing-input", "message": mod.oracle(pystog, small, sres) or msg,
+            "property": pid, "kind": "failing-input", "message": call_oracle(mod, pystog, small, sres) or msg,
             "case": small, "implementation_result": sres, "original_case_index": i,
             "broken": broken, "seed": seed, "tier": tier, "source": C.source_fingerprint(),
             "replay": "cd /verif && /venv/bin/python harness/vcheck.py %s --replay %s" % (pid, os.path.relpath(path, C.OUT)),
